@@ -117,6 +117,25 @@ Proof.
   rewrite (relabel_covers t ps pc Hps Hpc _ _ Xj Xi). tauto.
 Qed.
 
+(* ------------------------------------------------------------------ K[rows, cols] is the spec relabelling *)
+
+Theorem subtable_is_relabel b t rs cs : subtable b t rs cs = relabel_table rs cs t.
+Proof.
+  destruct b; try reflexivity. unfold subtable, N_subtable, N_slice, relabel_table.
+  rewrite map_map. reflexivity.
+Qed.
+
+Theorem ctx_getitem_is_relabel b K ps pc :
+  ctx_wf K -> is_perm (height (k_tbl K)) ps -> is_perm (width (k_tbl K)) pc ->
+  ctx_getitem b K ps pc =
+  COk {| k_tbl := relabel_table ps pc (k_tbl K);
+         k_on := names_at (k_on K) ps; k_an := names_at (k_an K) pc |}.
+Proof.
+  intros [Hwf [Ho Ha]] Hps Hpc. unfold ctx_getitem. rewrite subtable_is_relabel. apply mk_ctx_ok.
+  - unfold slice_names, names_at. rewrite map_length. rewrite (relabel_height (k_tbl K) ps pc Hps). apply Hps.
+  - unfold slice_names, names_at. rewrite map_length. rewrite (relabel_width (k_tbl K) ps pc Hps Hpc). apply Hpc.
+Qed.
+
 (* ------------------------------------------------------------------ objects for the non-vacuity examples *)
 
 Definition n_g0 : str := [103; 48].     (* g0 *)
